@@ -38,8 +38,9 @@ CFG = {
             "largest cavity per case is recorded as max-cavity:*); (iv) 1/16 grid inputs with 1-3 exactly "
             "repeated points (outside the statement: judged on vertex identity, attribute lengths and the four conjuncts "
             "only); random insertion order; 3/4 of the cases scaled by 2^-20..2^20, half of those offset up to 2^30 (2^40 for "
-            "slivers) with the metamorphic oracle 'same triangle set as unscaled'; distinct by (points, scale, offset); "
-            "non-trivial = at least 4 points",
+            "slivers) with the metamorphic oracle 'same triangle set as unscaled'; distinct by (points, scale, offset, spare capacity); "
+            "the slice handed to BowyerWatson is a window with spare capacity 0/1/2/3/4/16 and is read back after the "
+            "call; non-trivial = at least 4 points",
     "trusted": ["float64 arithmetic of the implementation is exact on the generated inputs by construction (bound "
                 "12*D^4 < 2^53 checked per case by the harness: exactOK) or, for the sliver class, sign-faithful with a "
                 "2^-40 margin on every predicate the run evaluates (exact big-integer shadow run in the harness: faithful); "
